@@ -771,3 +771,35 @@ package fsutil
 //@   ensures grows: forall k string :: old(haskey(r.resolved, k)) ==> haskey(r.resolved, k)
 //@   ensures size: len(r.resolved) >= old(len(r.resolved))
 //@   at call symlinkResolver.append: new_link_before_recursion: len(r.resolved) > old(len(r.resolved)) && haskey(r.resolved, current)
+
+// ---------------------------------------------------------------------------
+// entry points: every send goes through the locked wrapper, the sender sees the
+// hard-link re-canonicalising view, the id tables start empty
+// ---------------------------------------------------------------------------
+
+//@ func WithHardlinkReset
+//@   property C11 C06
+//@   ensures wrapped: isptr(result, hardlinkFilter) && asptr(result, hardlinkFilter) != nil && fresh(asptr(result, hardlinkFilter)) && asptr(result, hardlinkFilter).fs == fs
+
+//@ func sender.run
+//@   property C06
+//@   trusted starts the walker, four workers and the request loop as goroutines (errgroup); no sequential contract
+
+//@ func Send
+//@   property C06 C11
+//@   modifies nothing
+//@   at call sender.run: wiring: isptr(arg0.conn, syncStream) && asptr(arg0.conn, syncStream).Stream == conn && isptr(arg0.fs, hardlinkFilter) && asptr(arg0.fs, hardlinkFilter).fs == fs && arg0.files != nil && len(arg0.files) == 0 && arg0.sendpipeline != nil
+
+//@ func receiver.run
+//@   property C07
+//@   trusted starts the diff/disk-writer goroutine and the receive loop (errgroup); the sequential tail is not under contract
+
+//@ func Receive
+//@   property C07
+//@   modifies nothing
+//@   at call receiver.run: wiring: isptr(arg0.conn, syncStream) && asptr(arg0.conn, syncStream).Stream == conn && arg0.dest == dest && arg0.files != nil && arg0.pipes != nil && len(arg0.files) == 0 && len(arg0.pipes) == 0 && arg0.merge == opt.Merge && arg0.differ == opt.Differ
+
+// exactly one data callback must be configured
+//@ func NewDiskWriter
+//@   property C01 C05
+//@   ensures exclusive: result1 == nil ==> result0 != nil && result0.dirModTimes != nil && (result0.opt.SyncDataCb == nil || result0.opt.AsyncDataCb == nil) && !(result0.opt.SyncDataCb == nil && result0.opt.AsyncDataCb == nil) && result0.dest == dest
